@@ -31,7 +31,7 @@
   The proofs are in `Proofs/Rewrite.lean`.
 -/
 import Ctrmml.Proofs.Rewrite
-import Ctrmml.Proofs.OptPass
+import Ctrmml.Proofs.OptSub
 namespace Ctrmml.C01
 open Ctrmml Ctrmml.Tree Ctrmml.Expand Ctrmml.Rewrite Tables
 
@@ -840,5 +840,102 @@ theorem C01_optimize_preserves_partial (song : Song) (minScore : Int) (fuel : Na
   rw [← hlast]
   exact C01_passesN_preserve_nodepth song l hc id (hok id hid)
     (fun T hT t' ht' => validAll_validOK T (hall T hT) id t' ht')
+
+/-! ## the subroutine branch of `apply_match` is a subroutine extraction -/
+
+theorem jumpEvent_kind (subId : Int) : (jumpEvent subId).kind = .jump := by
+  show kindOfType ev_JUMP = .jump
+  decide
+
+theorem lookup_map_snd {β γ : Type} (l : List (Nat × β)) (f : Nat → β → γ) (k : Nat) :
+    (l.map fun p => (p.1, f p.1 p.2)).lookup k = (l.lookup k).map (f k) := by
+  induction l with
+  | nil => rfl
+  | cons p r ih =>
+    by_cases h : k = p.1
+    · subst h; simp [List.lookup]
+    · have h' : (k == p.1) = false := by simp [h]
+      simp [List.lookup, h', ih]
+
+/-- from the invariant of `find_subroutines` to an extraction step (up to `LOOP_BREAK` params):
+the intermediate song `S1` is the original one with every replaced occurrence made an exact copy
+of the phrase -/
+theorem stepN_of_subInv {song s3 : Song} {Xl : List Event} {subId : Int}
+    (hinv : SubInv song Xl (jumpEvent subId) (trackIdOfParam subId) s3)
+    (hfresh : song.track? (trackIdOfParam subId) = none)
+    (hne : NoEnd Xl) (hbal : scan Xl 0 = some 0) : StepN song s3 := by
+  obtain ⟨cX, bX, fX⟩ := forest_of_scan hne hbal
+  let j := jumpEvent subId
+  let X := parse Xl
+  let good : Nat → List Event → List Event → Prop := fun id evs evs1 =>
+    (∃ evs3, s3.track? id = some evs3 ∧ ERel X [.ev j] evs1 evs3) ∧ normL evs1 = normL evs
+  have hgood : ∀ id evs, song.track? id = some evs → ∃ evs1, good id evs evs1 := by
+    intro id evs he
+    have hid : id ≠ trackIdOfParam subId := by intro h; rw [h, hfresh] at he; cases he
+    rcases hinv.rel id hid with ⟨h1, _⟩ | ⟨evs0, evs', h1, h2, h3, _⟩
+    · rw [h1] at he; cases he
+    · rw [h1] at he; cases he
+      obtain ⟨evs1, g1, g2⟩ := h3.toERel (X := X) fX
+      exact ⟨evs1, ⟨evs', h2, g2⟩, g1⟩
+  have hgood' : ∀ id evs, ∃ evs1, song.track? id = some evs → good id evs evs1 := by
+    intro id evs
+    by_cases he : song.track? id = some evs
+    · obtain ⟨evs1, h1⟩ := hgood id evs he
+      exact ⟨evs1, fun _ => h1⟩
+    · exact ⟨evs, fun h => absurd h he⟩
+  let f : Nat → List Event → List Event := fun id evs => Classical.choose (hgood' id evs)
+  have hf : ∀ id evs, song.track? id = some evs → good id evs (f id evs) :=
+    fun id evs he => Classical.choose_spec (hgood' id evs) he
+  let S1 : Song := { tracks := song.tracks.map fun p => (p.1, f p.1 p.2) }
+  have hS1 : ∀ id, S1.track? id = (song.track? id).map (f id) := fun id => lookup_map_snd _ _ _
+  refine ⟨S1, ?_, ?_⟩
+  · intro id
+    rw [hS1]
+    cases he : song.track? id with
+    | none => rfl
+    | some evs =>
+      simp only [Option.map_some, Option.some.injEq]
+      exact (hf id evs he).2
+  · refine Step.extract X j ⟨cX, bX, jumpEvent_kind subId, ⟨rfl, rfl⟩⟩ ?_ ?_ ?_
+    · rw [hS1]; simp only [j]; rw [show (jumpEvent subId).param = subId from rfl, hfresh]; rfl
+    · show s3.track? (trackIdOfParam subId) = some (flattenL X)
+      rw [fX]; exact hinv.sub
+    · intro id evs1 he1
+      rw [hS1] at he1
+      cases he : song.track? id with
+      | none => rw [he] at he1; cases he1
+      | some evs =>
+        rw [he] at he1
+        simp only [Option.map_some, Option.some.injEq] at he1
+        rw [← he1]
+        exact (hf id evs he).1
+
+/-- **The subroutine branch of `apply_match` is one subroutine extraction** (`Step.extract`, any
+number of occurrences in any tracks), up to `LOOP_BREAK` params: the new track `(subId, X)` with
+`X` the balanced `subLength`-prefix at `position`, that occurrence replaced by the `JUMP`, and every
+further replacement made by `find_subroutines` an occurrence of the same phrase up to
+`LOOP_BREAK` params (`findMatchLength_spec` with `len = subLength`).
+
+Hypotheses: the subroutine branch is taken; the song is well formed; `subId` is fresh (no track
+with that id) and not called anywhere (`hnoj`; follows from freshness for a song all of whose
+tracks validate, `noJump_of_valid`); the phrase lies within the track and is balanced (`hbal`;
+`findMatch_subOK` shows that the match `find_match` returns has this property);
+`hq : QSortPerm` — the library's `Array.qsort`, through which the model inserts the new track into
+the id-ordered track list, returns a permutation of its input. -/
+theorem applyMatch_sub_is_step (hq : QSortPerm) {song : Song} {m : SAMap} {bm : Match} {subId : Int}
+    {src : List Event} (hwf : SongWF song)
+    (hbr : bm.loopScore < bm.subScore) (hsrc : song.track? bm.trackId = some src)
+    (hfresh : song.track? (trackIdOfParam subId) = none)
+    (hnoj : ∀ e ∈ src, e ≠ jumpEvent subId)
+    (hlen : bm.position + bm.subLength ≤ src.length)
+    (hbal : scan ((src.drop bm.position).take bm.subLength) 0 = some 0)
+    {s3 : Song} {m3 : SAMap} {subId' : Int} (h : applyMatch song m bm subId = .ok (s3, m3, subId')) :
+    StepN song s3 ∧ subId' = wrap16 (subId + 1) ∧
+      SubInv song ((src.drop bm.position).take bm.subLength) (jumpEvent subId) (trackIdOfParam subId) s3 := by
+  obtain ⟨w1, w2, _⟩ := hwf.track hsrc
+  obtain ⟨hinv, hid⟩ := applyMatch_sub_inv hq hwf.nodup hbr hsrc w2 hfresh
+    (fun id t ht => (hwf.track ht).2.1) hlen h
+    (fun x hx => hnoj x (List.mem_of_mem_drop (List.mem_of_mem_take hx)))
+  exact ⟨stepN_of_subInv hinv hfresh (noEnd_take (noEnd_drop w1 _) _) hbal, hid, hinv⟩
 
 end Ctrmml.C01
